@@ -362,6 +362,25 @@ class InverseMatcher(WrappingMatcher):
     def supports_block_quality(self):
         return False
 
+    def replace(self, minquality=0):
+        # The child's postings are the ones being excluded; its quality says
+        # nothing about this matcher's scores, so never pass the minimum
+        # quality down
+        if not self.is_active():
+            return mcore.NullMatcher()
+        elif minquality and self._weight < minquality:
+            return mcore.NullMatcher()
+        return self
+
+    def max_quality(self):
+        return self._weight
+
+    def block_quality(self):
+        return self._weight
+
+    def skip_to_quality(self, minquality):
+        return 0
+
     def _find_next(self):
         child = self.child
         missing = self.missing
